@@ -94,6 +94,8 @@ structure Msg where
   /-- environment: the handler succeeds when it runs (a `cas` additionally needs the cell to hold `old`) -/
   ok : Bool
   act : Act
+  /-- for a `MsgExecLegacyContent`: the type url of the v1beta1 content it wraps -/
+  inner : Ty := []
   deriving Repr, DecidableEq
 
 inductive Status where
@@ -258,11 +260,21 @@ def checkMsgs : List Msg → Bool
 /-- `sdk.MsgTypeURL` applied to a `*codectypes.Any` wrapper -/
 def anyUrl : Ty := "/google.protobuf.Any".toList
 
-/-- `getProposalMsgType`: the expression read from the source, for the first message -/
-def propType (msgs : List Msg) : Ty :=
+/-- the type url a custom-parameter lookup uses, by the kind read from the source (`getProposalMsgType` /
+`types.ExtractMsgTypeURL`), for the first message -/
+def typeUrlBy (kind : String) (msgs : List Msg) : Ty :=
   match msgs with
   | [] => []
-  | m :: _ => if propTypeIsMessageUrl then m.ty else anyUrl
+  | m :: _ =>
+    if kind == "first-message-url" then m.ty
+    else if kind == "unwrap-legacy-content" then (if lowerAscii m.ty == lowerAscii legacyUrl.toList then m.inner else m.ty)
+    else if kind == "any-wrapper-url" then anyUrl
+    else []
+
+/-- … in `GetCustomMsgVotingPeriod` -/
+def propTypeP (msgs : List Msg) : Ty := typeUrlBy periodLookupType msgs
+/-- … in `GetCustomMsgQuorum` -/
+def propTypeQ (msgs : List Msg) : Ty := typeUrlBy quorumLookupType msgs
 
 /-- the url that `GetMinDepositAmountFromProposalMsgs` compares with the EGF url, for one message -/
 def egfSeenUrl (m : Msg) : Ty := if egfUrlIsMessageUrl then m.ty else anyUrl
@@ -333,7 +345,7 @@ def reaches (total : Nat) (m : MinCoins) : Bool :=
 def activationPeriod (s : State) (p : Proposal) : Nat :=
   let dflt := if activationDefaultByExpedited && p.expedited then s.params.expVotingPeriod else s.params.votingPeriod
   if activationUsesCustomPeriod && customPeriodLookupOk then
-    match getCustom s.custom (propType p.msgs) with
+    match getCustom s.custom (propTypeP p.msgs) with
     | some c => c.votingPeriod
     | none => dflt
   else dflt
@@ -341,7 +353,7 @@ def activationPeriod (s : State) (p : Proposal) : Nat :=
 /-- the period used when a failed expedited proposal becomes a regular one (`EndBlocker`) -/
 def conversionPeriod (s : State) (p : Proposal) : Nat :=
   if conversionUsesCustomPeriod && customPeriodLookupOk then
-    match getCustom s.custom (propType p.msgs) with
+    match getCustom s.custom (propTypeP p.msgs) with
     | some c => c.votingPeriod
     | none => s.params.votingPeriod
   else s.params.votingPeriod
@@ -349,7 +361,7 @@ def conversionPeriod (s : State) (p : Proposal) : Nat :=
 /-- the quorum used by `Tally` -/
 def quorumFor (s : State) (p : Proposal) : Nat :=
   if tallyQuorumByType && customQuorumLookupOk then
-    match getCustom s.custom (propType p.msgs) with
+    match getCustom s.custom (propTypeQ p.msgs) with
     | some c => c.quorum
     | none => s.params.quorum
   else s.params.quorum
@@ -624,12 +636,24 @@ def execMsgs : List Msg → State → Option State
     | some s' => execMsgs r s'
     | none => none
 
+/-- the loop as far as it gets: the state after the messages that succeeded before the first failure -/
+def execPrefix : List Msg → State → State
+  | [], s => s
+  | m :: r, s =>
+    match execMsg m s with
+    | some s' => execPrefix r s'
+    | none => s
+
 /-- the `passes` case of the end-blocker: `writeCache()` only when every handler succeeded -/
 def runProposalMsgs (msgs : List Msg) (s : State) : State × Bool :=
   if execInCacheCtx then
-    match execMsgs msgs s with
-    | some s' => (s', true)
-    | none => (s, false)
+    if execErrVisible then
+      match execMsgs msgs s with
+      | some s' => (s', true)
+      | none => (s, false)
+    else
+      -- the test after the loop does not see the handler's error: whatever ran is written, the proposal "passed"
+      (execPrefix msgs s, true)
   else
     -- no cache: the writes of the messages before the failing one stay
     let rec go : List Msg → State → State × Bool
@@ -731,9 +755,29 @@ def dropInactive (pid : Nat) (s : State) : Except Err State :=
       if !s.params.burnPrevote then refundDeposits pid s1 else burnDeposits pid s1
     else .ok s1
 
+/-- the variant in which the settlement stands AFTER the outcome switch: the outcome first (queue entry removed, messages
+run or proposal converted or rejected), then the guard `!(proposal.Expedited && !passes)` is evaluated on the proposal as
+the switch left it — a converted proposal is no longer expedited, so its deposits are paid out although it stays open -/
+def finishTallyLate (passes burn : Bool) (res : Nat × Nat × Nat × Nat) (p : Proposal) (pid : Nat) (s : State) : Except Err State :=
+  let s2 := { s with active := removeQ (p.votingEnd, pid) s.active }
+  let (s3, p') : State × Proposal :=
+    if passes then
+      let (s3, ok) := runProposalMsgs p.msgs s2
+      (s3, { p with status := if ok then .passed else .failed, tallyRes := res })
+    else if p.expedited then
+      let p' := { p with expedited := false, votingEnd := p.votingStart + conversionPeriod s2 p, tallyRes := res }
+      ({ s2 with active := insertQ (p'.votingEnd, pid) s2.active }, p')
+    else (s2, { p with status := .rejected, tallyRes := res })
+  let settle : Except Err State :=
+    if !(p'.expedited && !passes) then (if burn then burnDeposits pid s3 else refundDeposits pid s3) else .ok s3
+  match settle with
+  | .error err => .error err
+  | .ok s4 => .ok { s4 with props := putProp s4.props p' }
+
 /-- active queue entry, after `Tally`: settle, run the messages or convert or reject, store the proposal with its
 final tally result -/
 def finishTally (passes burn : Bool) (res : Nat × Nat × Nat × Nat) (p : Proposal) (pid : Nat) (s : State) : Except Err State :=
+  if !settleShapeOk && settleAfterOutcome then finishTallyLate passes burn res p pid s else
   let settle : Except Err State :=
     if settleShapeOk then
       if !(p.expedited && !passes) then (if burn then burnDeposits pid s else refundDeposits pid s) else .ok s
